@@ -30,7 +30,15 @@ func HarnessRevalidation() {
 	h2 := hdr("Cache-Control", "max-age=5", "Etag", "\"B\"")
 	switch second {
 	case 0:
-		e.o.script = []originResp{{status: 200, header: h1, body: []byte("v1")}, {status: 304, header: hdr()}}
+		// the 304 may carry freshness headers of its own; the renewal is by the configured default
+		h304 := hdr()
+		switch symChoice(3) {
+		case 1:
+			h304["Cache-Control"] = []string{"max-age=1"}
+		case 2:
+			h304["Cache-Control"] = []string{"max-age=86400"}
+		}
+		e.o.script = []originResp{{status: 200, header: h1, body: []byte("v1")}, {status: 304, header: h304}}
 	case 1:
 		e.o.script = []originResp{{status: 200, header: h1, body: []byte("v1")}, {status: 200, header: h2, body: []byte("v2!")}}
 	default:
